@@ -21,7 +21,7 @@ na = {
 }
 checks = {
 "C02": dict(level="fault_enumeration", ref="DESIGN.md §5 C02",
-  text="Storage-fault simulation on the encoded bytes (seam S1). Every truncation point of every corpus file and every single-byte replacement (quick: 8 value classes per offset; thorough: all 255 other values, i.e. the single-fault space over the 971-file corpus completely) is enumerated, plus every 2-byte (quick) / 3-byte (thorough) instruction stream after two valid headers in styling and drawing mode, seeded 1-4-fault sequences (truncate, bit flip, byte set, zero/drop/duplicate range, splice, framing natural, hostile operand, garbage tail) over corpus, real-Encoder-written and foreign-writer files, random bytes after a header, and nine long repetitive valid shapes measured at n and 4n bytes. Each faulted file is read by all five readers (Decode into recorder / Renderer+recording rasteriser / Encoder, DecodeViewBox, Disassemble; every fourth file also into a DestinationLogger) under invariants panic, hang, oom, input-modified, error-type, early-delivery, first-not-reset, prefix, call-without-byte, raster-bound, linear-work (allocation volume, stack growth and delivered activity for 4x the input). Evidence, not proof, outside the enumerated sub-space.",
+  text="Storage-fault simulation on the encoded bytes (seam S1). Every truncation point of every corpus file and every single-byte replacement (quick: 8 value classes per offset; thorough: all 255 other values, i.e. the single-fault space over the 971-file corpus completely) is enumerated, plus every 2-byte (quick) / 3-byte (thorough) instruction stream after two valid headers in styling and drawing mode, seeded 1-4-fault sequences (truncate, bit flip, byte set, zero/drop/duplicate range, splice, framing natural, hostile operand, garbage tail) over corpus, real-Encoder-written and foreign-writer files, random bytes after a header, and nine long repetitive valid shapes measured at n and 4n bytes. Each faulted file is read by all five readers (Decode into recorder / Renderer+recording rasteriser / Encoder, DecodeViewBox, Disassemble; every fourth file also into a DestinationLogger) under invariants panic, hang, oom, input-modified, error-type, early-delivery, first-not-reset, prefix, call-without-byte, raster-bound, linear-work (allocation volume, stack growth, delivered activity and thread CPU time for 4x the input). Evidence, not proof, outside the enumerated sub-space.",
   note="Trusts the Go runtime, the spec-derived metadata validator (used only as delivered => valid) and the recording rasteriser's pen semantics; x/image/vector is not driven with corrupt input. Hang = 20 s without a progress beacon.",
   technique="deterministic simulation: seeded fault injection on a simulated byte store + exhaustive single-fault enumeration over the corpus, invariants per read, tape shrinking and replay"),
 "C10": dict(level="fault_enumeration", ref="DESIGN.md §5 C10",
